@@ -339,6 +339,9 @@ def run(chk):
     chk.rule("D4", "spectrum copied before writes; mask built from a copy of the spectrum", floor=3)
     chk.rule("D5", "wrappers apply the same mask to U/S/V on the connecting leg", floor=2)
     chk.rule("D6", "scalar-or-dict dispatch of a user limit tests the limit whose value it selects", floor=4)
+    # the mask is applied to the leg it was computed for: index-space typing (engine E3) of the masking functions
+    from . import e3
+    e3.run_L1(chk, rule="D7", floor=6, only={"apply_mask", "_meta_mask", "_apply_mask_axes", "svd_with_truncation", "eigh_with_truncation"})
     tm = prog.func(LINALG, "truncation_mask")
     tmm = prog.func(LINALG, "truncation_mask_multiplets")
     n1 = check_function(chk, tm)
